@@ -380,6 +380,7 @@ def drive(b, doc, d, name="cases"):
 
 # ---------------------------------------------------------------------------------- connection / life-cycle part
 
+WIRE_NEG = ["inplace", "abortonbad", "dropmd", "shareddialsreflect", "scenariodeadline", "dirtyafterfail", "leakmd", "keepdefaults", "lastwins"]
 CONN_NEG = ["dialpershot", "poolignored", "ignorewarmfail", "dieonfailure"]
 
 
@@ -528,16 +529,14 @@ def run(tier, v):
     thorough = tier == "thorough"
     # 1. design level + negative controls
     kw = dict(workers=4, deadlock=False, timeout=1800, heap="4g")
-    jobs = [("GrpcWireMC", "GrpcWire_exh3.cfg" if thorough else "GrpcWire_exh.cfg", dict(kw, workers=8, heap="8g")),
-            ("GrpcWireMC", "GrpcWire_neg_inplace.cfg", kw), ("GrpcWireMC", "GrpcWire_neg_abortonbad.cfg", kw),
-            ("GrpcWireMC", "GrpcWire_neg_dropmd.cfg", kw)]
-    more_neg = [("GrpcWireMC", "GrpcWire_neg_shareddialsreflect.cfg", kw), ("GrpcWireMC", "GrpcWire_neg_scenariodeadline.cfg", kw),
-                ("GrpcWireMC", "GrpcWire_neg_dirtyafterfail.cfg", kw), ("GrpcWireMC", "GrpcWire_neg_leakmd.cfg", kw),
-                ("GrpcWireMC", "GrpcWire_neg_keepdefaults.cfg", kw)]
-    jobs += more_neg
+    main = ("GrpcWireMC", "GrpcWire_exh3.cfg" if thorough else "GrpcWire_exh.cfg", dict(kw, workers=8, heap="8g"))
+    # further exhaustive configs (must pass): the metadata-key catalogue; thorough: files of 3 entries (2 instances)
+    more_pass = [("GrpcWireMC", "GrpcWire_exh_md.cfg", kw)]
+    if thorough:
+        more_pass.append(("GrpcWireMC", "GrpcWire_exh_file3.cfg", dict(kw, workers=8, heap="8g")))
+    neg = [("GrpcWireMC", "GrpcWire_neg_%s.cfg" % n, dict(kw, workers=2, heap="2g")) for n in WIRE_NEG]   # 1-5 s each: JVM start dominates
+    jobs = [main] + more_pass + neg
     t0 = time.time()
-    if thorough:   # files of 3 entries (2 instances) next to 3 instances (files of 2)
-        jobs.append(("GrpcWireMC", "GrpcWire_exh_file3.cfg", dict(kw, workers=8, heap="8g")))
     cjobs = conn_design_jobs(thorough)
     allres = tlc_parallel(jobs + cjobs)
     res, cres = allres[:len(jobs)], allres[len(jobs):]
@@ -545,14 +544,13 @@ def run(tier, v):
     for j, r in zip(cjobs[1:], cres[1:]):
         vlib.tlc_must_fail(r, j[1])
     vlib.log("design TLC + negative controls: %.1fs (%d + %d states)" % (time.time() - t0, res[0].distinct, cres[0].distinct))
-    vlib.tlc_must_pass(res[0], jobs[0][1])
-    for j, r in zip(jobs[1:9], res[1:9]):
-        vlib.tlc_must_fail(r, j[1])
-    states, trans = res[0].distinct, res[0].generated
-    for j, r in zip(jobs[9:], res[9:]):
+    states, trans = 0, 0
+    for j, r in zip(jobs[:1 + len(more_pass)], res[:1 + len(more_pass)]):
         vlib.tlc_must_pass(r, j[1])
         states += r.distinct
         trans += r.generated
+    for j, r in zip(jobs[1 + len(more_pass):], res[1 + len(more_pass):]):
+        vlib.tlc_must_fail(r, j[1])
     # 2. M2: the case space
     doc = gen_cases(thorough)
     b = vlib.harness_build()
@@ -585,7 +583,7 @@ def run(tier, v):
         "abstract_entries": len(ents), "bad_entries": sum(1 for e in ents if e["bad"] != "none"),
         "runs": len(doc["runs"]), "runs_rejected": rejected,
         "calls_received": recvs, "trace_lines": len(rows), "trace_spec_states": tstates,
-        "negative_controls": ["inplace", "abortonbad", "dropmd", "shareddialsreflect", "scenariodeadline", "dirtyafterfail", "leakmd", "keepdefaults"], "corrupted_traces_rejected": corrupted, "design_configs": [jobs[0][1]] + [j[1] for j in jobs[9:]],
+        "negative_controls": WIRE_NEG, "corrupted_traces_rejected": corrupted, "design_configs": [j[1] for j in jobs[:1 + len(more_pass)]],
     }
     cov.update(conn)
     return "model_checking", cov, [
